@@ -109,6 +109,26 @@ Definition proxy_out (unit_out : bool) (E P : shape) (v : jval) : pout :=
   | Success _ => PDecode
   end.
 
+(* ---------------------------------------------------------------- frames that are not objects *)
+(* `classify` is the untagged decode of whatever JSON value the frame is.  serde's derived
+   visitors also accept SEQUENCE forms (Shapes.v: struct_seq, adj_seq), so as of 4eaac7f a frame
+   such as ["org.example.E.Busy", null] - an array, no `error` member - is reported as the method's
+   error, ["org.varlink.service.PermissionDenied", null] as the service error and
+   [{"id":1,"name":"n"}, true] as a success.  A reply frame is a JSON object; the repair
+   (work/c04-array-fix.diff: receive_reply reads the message through a deserializer whose
+   deserialize_any is deserialize_map) makes every other frame a decode error.
+   `object_only` says which of the two the tree under test does; the check reads it off
+   read_connection.rs on every run (lib/envgen.py receive_reply_object_only). *)
+Definition is_object (v : jval) : bool := match v with JObj _ => true | _ => false end.
+
+Definition receive_reply_model (object_only : bool) (E P : shape) (v : jval) : outcome :=
+  if is_object v then classify E P v
+  else if object_only then DecodeError else classify E P v.
+
+Definition proxy_model (object_only unit_out : bool) (E P : shape) (v : jval) : pout :=
+  if is_object v then proxy_out unit_out E P v
+  else if object_only then PDecode else proxy_out unit_out E P v.
+
 (* ---------------------------------------------------------------- the property, order-free *)
 (* What the property says about an object WITHOUT duplicate member names, written with lookups
    only (no reference to the order of members).  `recognised`: the error type has a variant of
